@@ -797,6 +797,10 @@ func (st *ex4State) oracle(v *vio) {
 				v.add("X-tx-malformed", "%s: transmitted something that is not a BOOTP/DHCP packet", name)
 			}
 		}
+		// a NAK answers a REQUEST: no call may end in a NAK error before it has transmitted one
+		if o.returned && errors.As(o.err, &nk) && len(req) == 0 && o.kind != "release" {
+			v.add("X-nak-without-request", "%s: ended in a NAK error although no REQUEST had been transmitted (a NAK that answers a DISCOVER is to be ignored)", name)
+		}
 		// An exchange that fails without a NAK fails because nothing qualifying arrived: with the
 		// no-response error, after the phase it was in has been transmitted the configured
 		// number of times on the configured schedule (the calls are made with a context that
